@@ -17,7 +17,7 @@ import vlib
 from vlib import cz, cbytes, cbool, clist, ctuple, cstr_z, cfloat, run_cases, distinct_count
 
 PROPS_FILES = ["props/C17.v"]
-ALWAYS_SEARCH = False
+ALWAYS_SEARCH = True
 RULE = ("messages = real decoder output (build_network_map on/off, several decoder instances, with and without a "
         "claimed source identity, random source/destination/priority/preferences) for every definition of canboat.json "
         "x payload classes (all-zero, all-ones, random, one field at a boundary value, pairs that agree / differ on key "
@@ -646,6 +646,34 @@ def search(ctx):
     for a, b in zip(some, some[1:]):
         emit(_check_pair(a, b))
     emit(_check_pair(*none_text_witness()))
+    # definitions with SEVERAL key fields: the not-available pattern in one key field vs in another (same value in
+    # the remaining one) — positions in the key must not be confused
+    grp = {}
+    for d in defs:
+        grp.setdefault(d["PGN"], []).append(d)
+    for d in defs:
+        ks = [f for f in _key_fields(d) if "BitOffset" in f and f.get("BitLength") and "Match" not in f
+              and f["FieldType"] in ("NUMBER", "MMSI", "LOOKUP") and not f.get("Signed")]
+        if len(ks) < 2:
+            continue
+        nb = _nbytes(d)
+        base = _apply_match(d, 0)
+        k1, k2 = ks[0], ks[1]
+        na1, na2 = (1 << k1["BitLength"]) - 1, (1 << k2["BitLength"]) - 1
+        for v in (1, 2):
+            a = _set(_set(base, k1["BitOffset"], k1["BitLength"], na1), k2["BitOffset"], k2["BitLength"], v)
+            b = _set(_set(base, k1["BitOffset"], k1["BitLength"], v), k2["BitOffset"], k2["BitLength"], na2)
+            emit(_check_pair({"pgn": d["PGN"], "payload": a.to_bytes(nb, "little").hex()},
+                             {"pgn": d["PGN"], "payload": b.to_bytes(nb, "little").hex()}))
+    # different definitions of the SAME PGN (equal, often empty, key values): never the same hash; decoded in both
+    # orders, since anything remembered per PGN would make the first one decide
+    for pgn, g in grp.items():
+        if len(g) < 2:
+            continue
+        some = [{"pgn": pgn, "payload": _apply_match(d, 0).to_bytes(_nbytes(d), "little").hex()} for d in g]
+        for a, b in list(zip(some, some[1:]))[:ctx.n(3, 40)]:
+            emit(_check_pair(a, b))
+            emit(_check_pair(b, a))
     return out
 
 
